@@ -14,6 +14,7 @@ from . import scenario as S
 LEVEL = 'exploration'
 LONG = 90 * 86400
 FOREIGN = 4242
+UNPRIV = 65534
 MODES = [0o000, 0o400, 0o600, 0o640, 0o644, 0o660, 0o666, 0o777, 0o444, 0o604]
 UMASKS = [0o000, 0o022, 0o027, 0o077]
 USERS = [None, 'daemon', 'nobody', 'www-data', '1', '65534', '12345', '0']
@@ -90,6 +91,19 @@ def run_case(case):
                     out = {'include': ['conf.d/*.toml'] if case['split'] == 3 else ['conf.d/10-modes.toml', 'conf.d/20-renew.toml', 'conf.d/30-empty.toml']}
                 out.update(c)
                 return out
+            if case.get('scene') == 'unprivileged':
+                # the daemon runs as an ordinary user: the whole tree is that user's
+                for root_, dirs_, files_ in os.walk(d):
+                    for x in [root_] + [os.path.join(root_, f_) for f_ in files_]:
+                        try:
+                            os.chown(x, UNPRIV, UNPRIV)
+                        except OSError:
+                            pass
+            if case.get('scene') == 'mover-hook':
+                # a file-pre-edit hook that moves the old file aside (a backup): the file is then created anew, with the configured mode
+                mv = {'name': 'h_mv', 'type': ['file-pre-edit'], 'cmd': 'sh', 'args': ['-c', 'mv "$0" "$0.bak"', '{{ file_path }}']}
+                return S.std_config(d, ca, [{'name': 'c0', 'identifiers': S.ids('m%d.example.org' % case['i']), 'kp_reuse': False, 'hooks': ['h_all', 'h_mv']}],
+                                    accounts=[{'name': 'acc1', 'contacts': contacts, 'hooks': ['h_all', 'h_mv']}], global_extra=g, extra_hooks=[mv])
             if case.get('scene') == 'bad-hook-output':
                 # c0's post-operation hook cannot create its output file (tolerated: the attempt is over); c1 is issued later in the same
                 # process (its first attempt is made to fail) and its files are created after that
@@ -123,6 +137,8 @@ def run_case(case):
     # the umask is a property of the daemon process
     for ph in phases:
         ph['umask'] = case['umask']
+        if case.get('scene') == 'unprivileged':
+            ph['env'] = {'VERIF_RUN_AS_UID': str(UNPRIV)}
     run = S.run_phases('C13', 'm%d' % case['i'], phases, plan0=plan)
     res = {'case': case, 'problems': [], 'creates': 0, 'edits': 0}
     try:
@@ -136,6 +152,7 @@ def run_case(case):
         }
         created = {}
         is_pre = {}
+        own_id = UNPRIV if case.get('scene') == 'unprivileged' else 0
         for h in run.hooks:
             if C.hook_event(h) != 'file':
                 continue
@@ -154,7 +171,7 @@ def run_case(case):
                     res['problems'].append(('create-mode', '%s file created with mode %04o, expected %04o (configured %s, umask %03o)' % (
                         cls, f['mode'], w['mode'], oct(case.get({'pk': 'pk_file_mode', 'crt': 'cert_file_mode'}.get(cls, ''), 0) or 0) if cls != 'account' else '0600', um)))
                 for who, key in (('uid', 'uid'), ('gid', 'gid')):
-                    exp = w[key] if w[key] is not None else 0
+                    exp = w[key] if w[key] is not None else own_id
                     if f[who] != exp:
                         res['problems'].append(('create-owner', '%s file created with %s %d, expected %d' % (cls, who, f[who], exp)))
             elif created.get(path) is True:
@@ -165,7 +182,7 @@ def run_case(case):
                 for who, key in (('uid', 'uid'), ('gid', 'gid')):
                     if is_pre[path] and case.get('scene') == 'foreign-owner':
                         continue      # the foreign owner was put there by the scene; the rewrite has not happened yet
-                    exp = w[key] if w[key] is not None else 0
+                    exp = w[key] if w[key] is not None else own_id
                     if f[who] != exp:
                         res['problems'].append(('rewrite-owner', '%s file has %s %d after a rewrite, expected %d' % (cls, who, f[who], exp)))
                 if cls in ('pk', 'account') and (f['mode'] & 0o077) & ~w['mode']:
@@ -177,7 +194,7 @@ def run_case(case):
             except OSError:
                 continue
             w = want[cls]
-            if (st.st_uid, st.st_gid) != (w['uid'] or 0, w['gid'] or 0):
+            if (st.st_uid, st.st_gid) != (w['uid'] if w['uid'] is not None else own_id, w['gid'] if w['gid'] is not None else own_id):
                 res['problems'].append(('final-owner', '%s file owned by %d:%d at the end, expected %d:%d' % (cls, st.st_uid, st.st_gid, w['uid'] or 0, w['gid'] or 0)))
             if cls == 'pk' and (st.st_mode & 0o077) & ~w['mode']:
                 res['problems'].append(('final-mode', 'private key is mode %04o at the end, expected no more than %04o' % (st.st_mode & 0o7777, w['mode'])))
@@ -259,6 +276,14 @@ def run(tier):
             n1 = DUAL[i % len(DUAL)]
             c.update({'pk_file_user': n1, 'pk_file_group': n1} if i % 12 == 4 else {'cert_file_user': n1, 'pk_file_group': n1, 'cert_file_group': r.choice(GROUPS), 'pk_file_user': r.choice(USERS)})
         c['split'] = (1 + (i // 5) % 3) if c['split'] else 0
+        if i % 16 == 1:
+            # an unprivileged daemon and modes without the owner's write bit: a renewal cannot rewrite the key, and must not replace it by a looser file
+            c['scene'] = 'unprivileged'
+            c.update({'kp_reuse': False, 'split': False, 'pk_file_user': None, 'pk_file_group': None, 'cert_file_user': None, 'cert_file_group': None,
+                      'pk_file_mode': [0o400, 0o440, 0o600, 0o444][(i // 16) % 4], 'cert_file_mode': [0o444, 0o644, 0o440][(i // 16) % 3]})
+        if i % 16 == 9:
+            c['scene'] = 'mover-hook'
+            c.update({'kp_reuse': False, 'split': False, 'umask': [0o022, 0o000, 0o027][(i // 16) % 3]})
         if i % 16 in (5, 13):
             c['scene'] = 'linked-files' if i % 16 == 5 else 'bad-hook-output'
             c.update({'pk_file_user': r.choice(USERS[1:4]), 'pk_file_group': r.choice(GROUPS[1:4]), 'cert_file_user': r.choice(USERS[1:4]), 'cert_file_group': r.choice(GROUPS[1:4]),
@@ -298,7 +323,7 @@ def run(tier):
             chk.violation('C13|%s|%s' % (cls, what.split(' ')[0]), what + ' [%s]' % {k: v for k, v in c.items() if k != 'i'}, res, res.get('replay_dir'))
     probe_sweep(chk, tier, r)
     chk.rule = ('daemon runs: pk_file_mode / cert_file_mode from a boundary set (or unset) x umask {000,022,027,077} x user/group by name, by number or unset, '
-                'for key and certificate files, single-file and split configurations (one or several included [global] tables), set-group-ID directories, files left with a foreign owner, paths that are symbolic links, files created after a hook whose output file cannot be created; creation (first issuance, registration), rewrite (renewal, contact update); probe: full mode x umask '
+                'for key and certificate files, single-file and split configurations (one or several included [global] tables), set-group-ID directories, files left with a foreign owner, paths that are symbolic links, old files moved aside by a file-pre-edit hook, an unprivileged daemon with modes lacking the write bit of the owner, files created after a hook whose output file cannot be created; creation (first issuance, registration), rewrite (renewal, contact update); probe: full mode x umask '
                 'grid through the storage layer; distinct = configurations with at least one file creation observed')
     chk.assumptions = ['the checks run as root, so chown to arbitrary ids is possible', 'mode is required at creation only; on rewrite only "not more readable than asked" and the owner']
     code = chk.finish()
